@@ -63,6 +63,12 @@ func verifConnect(conn *sqlite3.SQLiteConn) error {
 	return nil
 }
 
+// verifID names a feed goroutine for the harness: the feed ID alone is shared by the per-collection
+// feeds of one bucket-level feed, which rosmar starts in map-iteration order.
+func (feed *dcpFeed) verifID() string {
+	return feed.args.ID + "/" + feed.collection.DataStoreNameImpl.String()
+}
+
 type verifClock struct{ fn func() uint64 }
 
 func (c *verifClock) getTime() uint64 { return c.fn() }
